@@ -90,6 +90,8 @@ def evalLine (line : String) : String :=
       "|U=" ++ toString (mask (VersionSet.union x y)) ++
       "|D=" ++ bit (VersionSet.isDisjoint x y) ++ "|S=" ++ bit (VersionSet.subsetOf x y)
     | _, _ => bad
+  | ["report", toks, _reg] => ReportDriver.reportLine toks
+  | ["collapse", toks, _reg, _root, _rv] => ReportDriver.collapseLine toks
   | ["solve", vs, dbg, root, rv, _reg, _strat, _fault, answers] =>
     match rv.toNat? with
     | none => bad
